@@ -205,7 +205,8 @@ def run(ctx):
         "evaluations": len(cases), "distinct_nontrivial": nontrivial,
         "rule": "one evaluation = one generated loop relation pushed through termination_test / one_affine_ranking_function / "
                 "all_affine_ranking_functions (MS and PR) and all_affine_quasi_ranking_functions_MS, in the single-relation or the "
-                "before/after form; distinct by hash of the journalled case; non-trivial = relation non-empty, at least one "
+                "before/after form (the planted family guarded_decrement - x_i' = x_i - positive combination of guard-bounded variables, "
+                "n = 2,3, before = the guard exactly - is shown in BOTH forms); distinct by hash of the journalled case; non-trivial = relation non-empty, at least one "
                 "constraint, and existence of an affine ranking function decided by the verified decider",
         "samples": samples, "traces_validated_against_impl": len(cases),
         "events_ok": stats["ok"], "events_mismatch": stats["MISMATCH"],
